@@ -97,7 +97,7 @@ impl Builder {
         let root = w.tals[tal].root;
         let blocks = w.blocks(root);
         let slash0 = w.cas[root].slash0;
-        let k = format!("ta|{tal}|{key}|{nb}|{na}|{:?}|{}|{}|{slash0}", blocks, w.ca_repository(root), w.cas[root].rrdp);
+        let k = format!("ta|{tal}|{key}|{nb}|{na}|{:?}|{}|{}|{slash0}|{}", blocks, w.ca_repository(root), w.cas[root].rrdp, w.notify_host(w.cas[root].repo));
         let (repo, mft, notify) = (w.ca_repository(root), w.manifest_uri(root), if w.cas[root].rrdp { Some(w.notify_uri(w.cas[root].repo)) } else { None });
         self.cached(k, |s| {
             let pk = s.public(key).clone();
